@@ -86,8 +86,20 @@ class Leaves:
     def __init__(self, readonly=False):
         self.readonly = readonly
         self.arrays = []
+        self.shared = {}
 
     def make(self, node):
+        # equal leaf nodes denote one array, hence (by hash-consing) one Tensor object: generated terms are DAGs with
+        # shared leaves and shared sub-terms, as in user code that reuses a tensor
+        try:
+            hit = self.shared.get(node)
+        except TypeError:  # a node holding lists (not yet converted from JSON): no sharing
+            return self._fresh(node)
+        if hit is None:
+            hit = self.shared[node] = self._fresh(node)
+        return hit
+
+    def _fresh(self, node):
         sizes = tuple(s for n, s in node[1])
         shape = tuple(node[2])
         dt = float if node[3] == "real" else (bool if (len(node) > 5 and node[5]) else np.int64)
